@@ -359,13 +359,21 @@ def session_ops(tables, seed, count, prefix="H"):
         both(c, chosen, foreign)
         group(c, [chosen[0], foreign[0], chosen[1], foreign[1], foreign[2], chosen[0], foreign[3]])
     # (e) geo operators in selective mode: a path outside the pattern, then one inside it
-    def geo(path, op="geoWithin"):
+    def geo(path, op="geoWithin", wrap=0):
         shape = Obj([("circle", Obj([("center", Obj([("type", "Point"), ("coordinates", [Num("91000137.5"), Num("91000237.25")])])), ("radius", Num("91000337"))]))]) if op == "geoWithin" else \
             Obj([("relation", "within"), ("geometry", Obj([("type", "Polygon"), ("coordinates", [[[Num("91000437"), Num("91000537")], [Num("91000637"), Num("91000737")]]])]))])
-        return cmd_line(agg([Obj([("$search", Obj([(op, Obj([("path", path)] + list(shape)))]))])]))
+        o = Obj([(op, Obj([("path", path)] + list(shape)))])
+        if wrap == 1:
+            o = Obj([("compound", Obj([("must", [o])]))])
+        elif wrap == 2:
+            o = Obj([("compound", Obj([("filter", [o]), ("should", [Obj([("text", Obj([("query", "zq1xs"), ("path", path)]))])])]))])
+        elif wrap == 3:
+            o = Obj([("embeddedDocument", Obj([("path", "emb"), ("operator", o)]))])
+        return cmd_line(agg([Obj([("$search", Obj([("index", "default")] + list(o)))]), Obj([("$limit", Num("5"))])]))
     for op in ("geoWithin", "geoShape"):
-        for c in (Cfg(re="^loc$"), Cfg(re="^loc$", n=True), Cfg(re="loc", n=True, b=True)):
-            both(c, [geo("other", op), geo("elsewhere", op)], [geo("loc", op), geo("loc", op)])
+        for wrap in range(4):
+            for c in (Cfg(re="^loc$", n=True), Cfg(re="loc", n=True, b=True), Cfg(re="^loc$")):
+                both(c, [geo("other", op, wrap), geo("elsewhere", op, wrap)], [geo("loc", op, wrap), geo("loc", op, (wrap + 1) % 4)])
     # (f) a flood of lines cut inside nested containers, then ordinary lines
     good = [cmd_line(find(Obj([("k", "zq1xs"), ("n", Num("91000137"))])))]
     flood = [b'{"a":[[[[{"b":', b'{"a":{"b":{"c":[[[', b'{"c":"COMMAND","attr":{"command":{"filter":{"a":[[[{"x":1,}]]]}}}}', b'{"a":[[[[[[[[1 2]]]]]]]]}']
